@@ -26,7 +26,7 @@ var c18CfgKinds = []string{"allow-all", "discrete", "discrete-credentialed", "st
 
 var c18Shapes = []string{"actual-get-allowed", "actual-get-disallowed", "actual-options", "non-cors-get", "preflight-ok", "preflight-bad-origin", "preflight-acrpn", "preflight-bad-method", "preflight-bad-headers"}
 
-var c18Fields = []string{"origin-length", "origin-labels", "origin-punycode-labels", "origin-values", "acrm-length", "acrh-line-length", "acrh-junk-length", "acrh-elements", "acrh-empty-elements", "acrh-lines", "acrh-ows"}
+var c18Fields = []string{"origin-length", "origin-labels", "origin-punycode-labels", "origin-values", "acrm-length", "acrh-line-length", "acrh-junk-length", "acrh-elements", "acrh-empty-elements", "acrh-lines", "acrh-ows", "acrpn-values", "acrpn-length", "other-header-values"}
 
 type C18Case struct {
 	CfgKind string `json:"config_kind"`
@@ -69,7 +69,7 @@ var c18Counts = []int{1, 100, 10_000, 100_000}
 
 func c18Scales(field string) []int {
 	switch field {
-	case "origin-values", "acrh-elements", "acrh-empty-elements", "acrh-lines":
+	case "origin-values", "acrh-elements", "acrh-empty-elements", "acrh-lines", "acrpn-values", "other-header-values":
 		return c18Counts
 	case "origin-labels":
 		return []int{1, 10, 100, 100_000} // 100 labels still fit the 253-byte host limit; 100 000 do not
@@ -162,6 +162,23 @@ func c18Request(shape, field, fl string, n int) *http.Request {
 			vs[i] = flavour("x-foo", fl)
 		}
 		h[hACRH] = vs
+	case "acrpn-values":
+		// many Access-Control-Request-Private-Network field lines (junk, true or false depending on the flavour)
+		v := map[string]string{"lower": "yes", "mixed": "True", "upper": "FALSE", "padded": "true"}[fl]
+		vs := make([]string, n)
+		for i := range vs {
+			vs[i] = v
+		}
+		h[hACRPN] = vs
+	case "acrpn-length":
+		h[hACRPN] = []string{flavour(strings.Repeat("t", n), fl)}
+	case "other-header-values":
+		// a header the middleware has no business reading
+		vs := make([]string, n)
+		for i := range vs {
+			vs[i] = flavour("gzip", fl)
+		}
+		h["Accept-Encoding"] = vs
 	case "acrh-ows":
 		h[hACRH] = []string{flavour("x-bar,", fl) + strings.Repeat(" ", n) + flavour("x-foo", fl)}
 	}
@@ -225,7 +242,7 @@ func c18Check(c C18Case, rec *Recorder) *Disc {
 func TestC18(t *testing.T) {
 	Prop[C18Case]{ID: "C18", Gen: c18Gen, Check: c18Check,
 		Rule: "generator: configuration kind in {allow-all, discrete, discrete+credentialed+PNA, * headers anonymous with/without Authorization, * headers credentialed, no headers configured, no-cors-only PNA} x debug x request shape in {actual allowed/disallowed, actual OPTIONS, non-CORS, preflight succeeding / failing at origin, ACRPN, method, headers} " +
-			"x scaled field in {Origin length, Origin label count, Origin Punycode-label count, Origin value count, ACRM length, ACRH line length (valid names), ACRH junk length, ACRH element count, ACRH empty-element count, ACRH line count, OWS run} x content flavour in {lower case, Mixed-Case, UPPER CASE, OWS-padded} x 4 scales (1 B..1 MiB or 1..100 000 elements). " +
+			"x scaled field in {Origin length, Origin label count, Origin Punycode-label count, Origin value count, ACRM length, ACRH line length (valid names), ACRH junk length, ACRH element count, ACRH empty-element count, ACRH line count, OWS run, ACRPN value count, ACRPN length, value count of an unrelated header} x content flavour in {lower case, Mixed-Case, UPPER CASE, OWS-padded} x 4 scales (1 B..1 MiB or 1..100 000 elements). " +
 			"Oracle: testing.AllocsPerRun (10 runs, GOMAXPROCS 1, reused request, reused and cleared header map, no-op handler, race detector off) <= 8 at every scale and not larger at the largest scale than at the smallest. " +
 			"evaluations = measured cells; non-trivial = cell with scale >= 10 KiB / 10 000 elements; distinct by (config kind, debug, shape, field, flavour, scale).",
 		Assumptions: []string{"only the allocation COUNT is judged, as the property says; a change that allocates O(n) bytes in O(1) allocations is not flagged",
